@@ -28,7 +28,7 @@ pub use vharness::common::DAY;
 /// 2023-11-14T00:00:00Z: start of a UTC day, so that `T0 + k*DAY` are day starts
 pub const T0: i64 = 1_699_920_000_000;
 
-pub const MODEL: &str = "ns { Doc{ a:String, b:String nullable } Plain(no_full_text_index){ a:String } Note{ a:String nullable, b:String nullable } Memo{ a:String nullable } }";
+pub const MODEL: &str = "ns { Doc{ a:String, b:String nullable, refs:[ns.Doc] nullable } Plain(no_full_text_index){ a:String } Note{ a:String nullable, b:String nullable } Memo{ a:String nullable } }";
 
 pub struct Peer {
     pub db: GraphDatabaseService,
@@ -365,6 +365,10 @@ pub enum Op {
     Create { p: usize, x: u64, t: i64 },
     Update { p: usize, x: u64, t: i64 },
     Delete { p: usize, x: u64, t: i64 },
+    /// mutate { ns.Doc{ id:x refs:[{id:y}] } }
+    AddRef { p: usize, x: u64, y: u64, t: i64 },
+    /// delete { ns.Doc{ x refs[y] } }
+    DelRef { p: usize, x: u64, y: u64, t: i64 },
     Pull { dst: usize, src: usize, t: i64 },
 }
 
@@ -372,6 +376,10 @@ pub enum Op {
 pub struct Dump {
     pub nodes: Vec<(u64, i64, Vec<u8>)>,
     pub tombs: Vec<(u64, i64, i64)>,
+    /// (src, dest, cdate) of _edge rows whose source is a row of the scenario
+    pub edges: Vec<(u64, u64, i64)>,
+    /// (src, dest, cdate, deletion date) of the room's _edge_deletion_log
+    pub etombs: Vec<(u64, u64, i64, i64)>,
 }
 
 #[derive(Clone, Debug)]
@@ -408,12 +416,29 @@ impl<'a> Runner<'a> {
         nodes.sort();
         let mut tombs: Vec<(u64, i64, i64)> = self.net.dump_tombs(p, self.room).await.into_iter().map(|r| (self.index_of(&r.id), r.mdate, r.ddate)).collect();
         tombs.sort_by_key(|t| (t.0, t.2));
-        Dump { nodes, tombs }
+        let ids = self.ids.clone();
+        let raw: Vec<(Uid, Uid, i64)> = self.net.sql(p, |c| {
+            let mut st = c.prepare("SELECT src, dest, cdate FROM _edge")?;
+            let rows = st.query_map([], |r| Ok((r.get(0)?, r.get(1)?, r.get(2)?)))?;
+            rows.collect()
+        }).await;
+        let idx = |u: &Uid| ids.iter().position(|v| v == u).map(|i| i as u64 + 1);
+        let mut edges: Vec<(u64, u64, i64)> = raw.iter().filter_map(|(s, d, c)| match (idx(s), idx(d)) { (Some(a), Some(b)) => Some((a, b, *c)), _ => None }).collect();
+        edges.sort();
+        let room = self.room;
+        let rawt: Vec<(Uid, Uid, i64, i64)> = self.net.sql(p, move |c| {
+            let mut st = c.prepare("SELECT src, dest, cdate, deletion_date FROM _edge_deletion_log WHERE room_id = ?")?;
+            let rows = st.query_map([room], |r| Ok((r.get(0)?, r.get(1)?, r.get(2)?, r.get(3)?)))?;
+            rows.collect()
+        }).await;
+        let mut etombs: Vec<(u64, u64, i64, i64)> = rawt.iter().map(|(s, d, c, t)| (idx(s).expect("foreign edge record"), idx(d).expect("foreign edge record"), *c, *t)).collect();
+        etombs.sort_by_key(|t| (t.0, t.1, t.3));
+        Dump { nodes, tombs, edges, etombs }
     }
     /// last dump shown by peer p
     pub fn last_dump(&self, p: usize) -> Dump {
         for s in self.steps.iter().rev() {
-            let q = match s.op { Op::Create { p, .. } | Op::Update { p, .. } | Op::Delete { p, .. } => p, Op::Pull { dst, .. } => dst };
+            let q = match s.op { Op::Create { p, .. } | Op::Update { p, .. } | Op::Delete { p, .. } | Op::AddRef { p, .. } | Op::DelRef { p, .. } => p, Op::Pull { dst, .. } => dst };
             if q == p { return s.dump.clone(); }
         }
         Dump::default()
@@ -464,6 +489,32 @@ impl<'a> Runner<'a> {
                 rec.natural = self.net.barrier(p).await;
                 rec.dump = self.dump(p).await;
             }
+            Op::AddRef { p, x, y, t } => {
+                verif_clock::set(t);
+                let mut pa = Parameters::default();
+                pa.add("x", b64(&self.ids[x as usize - 1])).unwrap();
+                pa.add("y", b64(&self.ids[y as usize - 1])).unwrap();
+                match self.net.peers[p].db.mutate_raw("mutate { ns.Doc{ id:$x refs:[{id:$y}] } }", Some(pa)).await {
+                    Ok(r) => {
+                        if let Some(node) = r.mutate_entities[0].node_to_mutate.node.as_ref() { rec.sig = node._signature.clone(); }
+                        rec.flag = 1;
+                    }
+                    Err(_) => rec.flag = 0,
+                }
+                rec.natural = self.net.barrier(p).await;
+                rec.dump = self.dump(p).await;
+            }
+            Op::DelRef { p, x, y, t } => {
+                verif_clock::set(t);
+                let mut pa = Parameters::default();
+                pa.add("x", b64(&self.ids[x as usize - 1])).unwrap();
+                pa.add("y", b64(&self.ids[y as usize - 1])).unwrap();
+                let r = self.net.peers[p].db.delete("delete { ns.Doc{ $x refs[$y] } }", Some(pa)).await.expect("delete reference");
+                rec.flag = r.edge_log.len() as i64;
+                if let Some(n) = r.updated_nodes.first() { rec.sig = n.node._signature.clone(); }
+                rec.natural = self.net.barrier(p).await;
+                rec.dump = self.dump(p).await;
+            }
             Op::Pull { dst, src, t } => {
                 let tr = self.net.pull(dst, src, self.room, t).await;
                 rec.flag = tr.requested.len() as i64;
@@ -489,7 +540,7 @@ impl<'a> Runner<'a> {
                     if dst != src {
                         let before = self.last_dump(dst);
                         let s = self.exec(Op::Pull { dst, src, t }).await;
-                        if s.flag != 0 || s.dump.nodes != before.nodes || s.dump.tombs != before.tombs { moved = true; }
+                        if s.flag != 0 || s.dump.nodes != before.nodes || s.dump.tombs != before.tombs || s.dump.edges != before.edges || s.dump.etombs != before.etombs { moved = true; }
                     }
                 }
             }
@@ -520,6 +571,8 @@ impl<'a> Runner<'a> {
                 Op::Create { p, x, t } => format!("Create {} {} {} {}", gn(*p as u64), gn(*x), gz(*t), gn(sg)),
                 Op::Update { p, x, t } => format!("Update {} {} {} {}", gn(*p as u64), gn(*x), gz(*t), gn(sg)),
                 Op::Delete { p, x, t } => format!("Delete {} {} {}", gn(*p as u64), gn(*x), gz(*t)),
+                Op::AddRef { p, x, y, t } => format!("AddRef {} {} {} {} {}", gn(*p as u64), gn(*x), gn(*y), gz(*t), gn(sg)),
+                Op::DelRef { p, x, y, t } => format!("DelRef {} {} {} {} {}", gn(*p as u64), gn(*x), gn(*y), gz(*t), gn(sg)),
                 Op::Pull { dst, src, .. } => format!("Pull {} {} {}", gn(*dst as u64), gn(*src as u64), glist(&s.days.iter().map(|d| gz(*d)).collect::<Vec<_>>())),
             });
             obs.push(s.flag);
@@ -527,6 +580,10 @@ impl<'a> Runner<'a> {
             for n in &s.dump.nodes { obs.push(n.0 as i64); obs.push(n.1); obs.push(rk[&n.2] as i64); }
             obs.push(s.dump.tombs.len() as i64);
             for t in &s.dump.tombs { obs.push(t.0 as i64); obs.push(t.1); obs.push(t.2); }
+            obs.push(s.dump.edges.len() as i64);
+            for e in &s.dump.edges { obs.push(e.0 as i64); obs.push(e.1 as i64); obs.push(e.2); }
+            obs.push(s.dump.etombs.len() as i64);
+            for e in &s.dump.etombs { obs.push(e.0 as i64); obs.push(e.1 as i64); obs.push(e.2); obs.push(e.3); }
         }
         (terms, obs)
     }
@@ -535,15 +592,15 @@ impl<'a> Runner<'a> {
         let (terms, obs) = self.encode();
         let k = terms.len() - final_len.min(terms.len());
         let coq = format!("{} {} {} {}", ctor, gn(self.n as u64), glist(&terms[..k]), glist(&terms[k..]));
-        let mut creates = 0; let mut updates = 0; let mut deletes = 0; let mut pulls = 0; let mut moved = 0; let mut unnatural = 0; let mut failed = 0; let mut maxb = 0;
+        let mut creates = 0; let mut updates = 0; let mut deletes = 0; let mut pulls = 0; let mut moved = 0; let mut unnatural = 0; let mut failed = 0; let mut maxb = 0; let mut refadds = 0; let mut refdels = 0;
         for s in &self.steps {
-            match s.op { Op::Create { .. } => creates += 1, Op::Update { .. } => updates += 1, Op::Delete { .. } => deletes += 1, Op::Pull { .. } => { pulls += 1; if s.flag > 0 { moved += 1; } } }
+            match s.op { Op::Create { .. } => creates += 1, Op::Update { .. } => updates += 1, Op::Delete { .. } => deletes += 1, Op::AddRef { .. } => refadds += 1, Op::DelRef { .. } => refdels += 1, Op::Pull { .. } => { pulls += 1; if s.flag > 0 { moved += 1; } } }
             if !s.natural { unnatural += 1; }
             if !s.pull_ok { failed += 1; }
             if s.batches > maxb { maxb = s.batches; }
         }
         Case { kind: kind.to_string(), coq, obs,
-               meta: serde_json::json!({"peers": self.n, "creates": creates, "updates": updates, "deletes": deletes, "pulls": pulls, "pulls_that_requested_rows": moved,
+               meta: serde_json::json!({"peers": self.n, "creates": creates, "updates": updates, "deletes": deletes, "ref_adds": refadds, "ref_removes": refdels, "pulls": pulls, "pulls_that_requested_rows": moved,
                                         "final_steps": final_len, "explicit_recompute": unnatural, "failed_pulls": failed, "max_data_answers_in_one_pull": maxb, "extra": extra}) }
     }
 }
@@ -637,4 +694,58 @@ pub async fn batching_history(r: &mut Runner<'_>, rows: u64, deleted: u64) {
     for x in 1..=deleted { r.exec(Op::Delete { p: 0, x, t: t + 2000 + x as i64 }).await; }
     r.exec(Op::Pull { dst: 1, src: 0, t: t + 5000 }).await;
     if r.n > 2 { r.exec(Op::Pull { dst: 2, src: 1, t: t + 6000 }).await; }
+}
+
+/// (a) two peers concurrently add DIFFERENT references to the same row
+pub async fn concurrent_refs_history(r: &mut Runner<'_>, same_ms: bool) {
+    let t = T0 + 1000;
+    for x in 1..=3 { r.exec(Op::Create { p: 0, x, t: t + x as i64 }).await; }
+    r.exec(Op::Pull { dst: 1, src: 0, t: t + 100 }).await;
+    r.exec(Op::AddRef { p: 0, x: 1, y: 2, t: t + 10_000 }).await;
+    r.exec(Op::AddRef { p: 1, x: 1, y: 3, t: if same_ms { t + 10_000 } else { t + 20_000 } }).await;
+}
+/// (b) a reference is added, removed and added again on one day; the day is exchanged again later
+/// (another row changes on it), so the old deletion record is replayed on a peer that holds the new reference
+pub async fn ref_readd_history(r: &mut Runner<'_>) {
+    let t = T0 + 1000;
+    r.exec(Op::Create { p: 0, x: 1, t }).await;
+    r.exec(Op::Create { p: 0, x: 2, t: t + 1 }).await;
+    r.exec(Op::AddRef { p: 0, x: 1, y: 2, t: t + 1000 }).await;
+    r.exec(Op::Pull { dst: 1, src: 0, t: t + 1500 }).await;
+    r.exec(Op::DelRef { p: 0, x: 1, y: 2, t: t + 2000 }).await;
+    r.exec(Op::AddRef { p: 0, x: 1, y: 2, t: t + 3000 }).await;
+    r.exec(Op::Pull { dst: 1, src: 0, t: t + 3500 }).await;
+    if r.n > 2 { r.exec(Op::Pull { dst: 2, src: 1, t: t + 3600 }).await; }
+    r.exec(Op::Create { p: 0, x: 3, t: t + 4000 }).await;
+    r.exec(Op::Pull { dst: 1, src: 0, t: t + 4500 }).await;
+    if r.n > 2 { r.exec(Op::Pull { dst: 2, src: 0, t: t + 4600 }).await; }
+}
+/// two peers add the SAME reference concurrently (two creation dates); the later one is removed again
+pub async fn same_ref_history(r: &mut Runner<'_>) {
+    let t = T0 + 1000;
+    r.exec(Op::Create { p: 0, x: 1, t }).await;
+    r.exec(Op::Create { p: 0, x: 2, t: t + 1 }).await;
+    r.exec(Op::Pull { dst: 1, src: 0, t: t + 100 }).await;
+    r.exec(Op::AddRef { p: 0, x: 1, y: 2, t: t + 10_000 }).await;
+    r.exec(Op::AddRef { p: 1, x: 1, y: 2, t: t + 20_000 }).await;
+    r.exec(Op::DelRef { p: 1, x: 1, y: 2, t: t + 30_000 }).await;
+}
+/// one generated reference step on peer p (add / remove / re-add among the rows the peer shows)
+pub async fn gen_ref_step(r: &mut Runner<'_>, p: usize, t: i64, rng: &mut Rng) {
+    let have = r.last_dump(p);
+    let known: Vec<u64> = have.nodes.iter().map(|x| x.0).collect();
+    if known.len() < 2 { return; }
+    let held: Vec<(u64, u64)> = have.edges.iter().filter(|e| known.contains(&e.0)).map(|e| (e.0, e.1)).collect();
+    if !held.is_empty() && rng.chance(2, 5) {
+        let (x, y) = *rng.pick(&held);
+        r.exec(Op::DelRef { p, x, y, t }).await;
+    } else if rng.chance(1, 10) {
+        let x = *rng.pick(&known); let y = *rng.pick(&known);
+        r.exec(Op::DelRef { p, x, y, t }).await; // usually a reference that does not exist: the source row is re-dated all the same
+    } else {
+        let x = *rng.pick(&known);
+        let mut y = *rng.pick(&known);
+        if y == x { y = *known.iter().find(|k| **k != x).unwrap(); }
+        r.exec(Op::AddRef { p, x, y, t }).await;
+    }
 }
